@@ -37,3 +37,20 @@ CHECKS["C12"] = {
         "target is reached only through the attribute assigned from the 'target' parameter." + TRUSTED
     ),
 }
+
+CHECKS["C15"] = {
+    "technique": "pairing/dominance rules on exceptional CFG (finally cloned per exit)",
+    "text": (
+        "Static pairing and ordering rules for Spinner.run/not_reentrant/_clean/_get_result: reactor.stop and the "
+        "signal handlers are restored on every path (normal and exceptional) after they were replaced/saved, the "
+        "result is fetched under a finally that cleans the reactor and records all junk, the stale-junk refusal "
+        "dominates every mutation, the re-entrancy flag is set after its test and cleared on all paths, the result "
+        "is a strict three-way (failure raise / success return / NoResultError), callbacks cancel the timeout and "
+        "store into distinct fields, and result fields are reset per run. These are the code-shape guarantees "
+        "behind the restoration clauses, which hold for all crash points by construction."
+    ),
+    "note": (
+        "Not decided (runtime quantities): timing of the Deferred relative to the timeout, what the reactor really "
+        "holds, identity of real signal handlers. The decided clauses are necessary conditions of the property." + TRUSTED
+    ),
+}
